@@ -225,7 +225,20 @@ func VxC04_Errors() {
 
 // vxTQuantile abstracts InvCDF(TDist{...}): an arbitrary function of the level.
 func vxTQuantile(dist DistCommon) func(float64) float64 {
-	return func(y float64) float64 { return vx.UFloat("tquantile", y) }
+	v := -1.0
+	if d, ok := dist.(TDist); ok {
+		v = d.V
+	}
+	return func(y float64) float64 { return vx.UFloat("tquantile", v, y) }
+}
+
+// vxTQ is the quantile the harness expects: the same uninterpreted function of (degrees of freedom,
+// level) in the engine, the real generic InvCDF of the t distribution natively (candidate replay).
+func vxTQ(v, y float64) float64 {
+	if vx.Engine() {
+		return vx.UFloat("tquantile", v, y)
+	}
+	return InvCDF(TDist{V: v})(y)
 }
 
 // VxC04_MeanCI: mean, interval shape and the special cases.
@@ -235,7 +248,7 @@ func vxTQuantile(dist DistCommon) func(float64) float64 {
 //vx:mode FP
 //vx:solver cvc5
 //vx:stub stats.InvCDF = vxTQuantile
-//vx:bound n = 0..4 finite values (|x| <= 1e100); c any non-NaN float64; the Student t quantile is an uninterpreted function of the level (its correctness is C07's subject)
+//vx:bound n = 0..4 finite values (|x| <= 1e100); c any non-NaN float64; the Student t quantile is an uninterpreted function of (degrees of freedom, level) (its correctness is C07's subject)
 //vx:outside "whose Student-t probability content is exactly c" (the value of the t quantile)
 func VxC04_MeanCI() {
 	n := vx.Choose("n", 0, 4)
@@ -262,9 +275,10 @@ func VxC04_MeanCI() {
 		vx.Assert(math.IsInf(lo, -1) && math.IsInf(hi, 1), "infinite width for c >= 1 or n <= 1")
 	default:
 		vx.Cover("interval")
-		t := -vx.UFloat("tquantile", (1-c)/2)
+		t := -vxTQ(float64(n-1), (1-c)/2)
 		w := t * StdDev(xs) / math.Sqrt(float64(n))
-		vx.Assert(vx.SameBits(lo, mean-w) && vx.SameBits(hi, mean+w), "the interval is mean -/+ t*s/sqrt(n) with t the upper (1+c)/2 quantile")
+		vx.Assert((vx.SameBits(lo, mean-w) && vx.SameBits(hi, mean+w)) || (!vx.Engine() && vx.Close(lo, mean-w, 1e-9, 1e-300) && vx.Close(hi, mean+w, 1e-9, 1e-300)),
+			"the interval is mean -/+ t*s/sqrt(n) with t the upper (1+c)/2 quantile of the t distribution with n-1 degrees of freedom")
 	}
 }
 
